@@ -128,14 +128,16 @@ impl SortingInference<'_> {
                     );
                     return;
                 }
-                // try renaming
-                if column_aliases.contains_key(&sort.column) {
-                    let alias = column_aliases[&sort.column];
-                    log::debug!("..aliasing {:?} as {alias:?}", &sort.column);
-                    sort.column = alias;
+                // try renaming: only to an alias that the target table carries out of the
+                // sub-query (an alias that is not redirected could never be re-applied forward)
+                let cid_mappings = redirects[riid];
+                if let Some(alias) = column_aliases.get(&sort.column) {
+                    if cid_mappings.contains_key(alias) {
+                        log::debug!("..aliasing {:?} as {alias:?}", &sort.column);
+                        sort.column = *alias;
+                    }
                 }
                 // try de-reverting with the target table
-                let cid_mappings = redirects[riid];
                 if cid_mappings.contains_key(&sort.column) {
                     log::debug!(
                         ".. reverting {:?} forward to {:?} via redirects of {riid:?} ({:?})",
